@@ -3,6 +3,7 @@
 # Run it alone: it uses the scratch worktree named by SEED_EVAL_REPO (default /var/tmp/wt_detect).
 cd /verif
 export SEED_EVAL_REPO=${SEED_EVAL_REPO:-/var/tmp/wt_detect}
+[ -d "$SEED_EVAL_REPO" ] || git -C /repo worktree add -q --detach "$SEED_EVAL_REPO" HEAD || exit 2   # scratch worktree; remove it afterwards with: git -C /repo worktree remove --force $SEED_EVAL_REPO
 for d in seeded/[A-Z]*/; do
   n=$(basename $d)
   python3 tools/seed_eval.py detect /verif/${d%/} > /var/tmp/redetect_$n.json 2>/dev/null
